@@ -4,7 +4,7 @@
    queue, one retry iteration in atomic actions, compaction cap; every commit takes an environment choice).
    A label list is an arbitrary interleaving of all of these, with arbitrary fault placements. *)
 From KB Require Import Base.Cases Model.RetrySys Model.C09Cases
-  Proofs.RetryBase Proofs.RetryInv1 Proofs.RetryInv2 Proofs.RetryProps Proofs.RetryWitness.
+  Proofs.RetryBase Proofs.RetryInv1 Proofs.RetryInv2 Proofs.RetryProps Proofs.RetryInv3 Proofs.RetryInvX Proofs.RetryAck Proofs.RetryWitness.
 Local Open Scope N_scope.
 
 (* ---------- error class ---------- *)
@@ -22,6 +22,17 @@ Theorem C09_error_class : forall r0 ls,
   end.
 Proof. exact error_class. Qed.
 Print Assumptions C09_error_class.
+
+(* ---------- acknowledged writes are durable ---------- *)
+(* Succeeded = true (all verbs): the request's version — its allocated revision, its value, or the deletion marker — is in
+   the key's version chain, and stays there along every continuation (whatever faults, repairs and writes follow) *)
+Theorem C09_ack_durable : forall r0 ls,
+  Forall wf_label ls -> let s := run (init_state r0) ls in
+  forall t th h kv, get_thread t (s_threads s) = Some th -> t_pc th = PDone (ROk h kv) ->
+  exists v, written (t_op th) v /\
+    forall ls', In (h, v) (vers (run s ls') (op_key (t_op th))).
+Proof. exact ack_durable. Qed.
+Print Assumptions C09_ack_durable.
 
 (* ---------- progress ---------- *)
 (* whatever sits in the slot of the next revision — an unknown-outcome event included — the sequencer commits that
@@ -87,3 +98,40 @@ Theorem C09_converges_refuted_empty : exists ls, Forall wf_label ls /\
   let s := run (init_state 10) ls in quiescentb s = true /\ ~ converged_at s 11 0.
 Proof. exact converges_refuted_empty. Qed.
 Print Assumptions C09_converges_refuted_empty.
+
+(* ---------- convergence, for the complement of the findings ----------
+   labels_ok: along the run (i) f1_free — every commit of a repair write is drawn from {EnvOk, EnvUnknown applied}
+   (takes effect whenever its compare holds); (ii) f2_free — no client value is empty; (iii) wf_label.
+   Everything else is arbitrary: any number of unknown outcomes per key outstanding at once, on any commit of any
+   request, landed or not, faults (unknown + landed) on repair writes, client writes racing the repair between its
+   read, its Deal and its commit, getter failures, compactions, clock ticks, any interleaving.
+   In every quiescent state, for EVERY earlier revision R0 and every key: replaying the published events newer than
+   R0 over the snapshot at R0 gives the snapshot at the committed revision. *)
+Theorem C09_converges_except_findings : forall r0 ls,
+  labels_ok (init_state r0) ls -> let s := run (init_state r0) ls in
+  quiescentb s = true -> forall R0 k, converged_at s R0 k.
+Proof. exact converges_except_findings. Qed.
+Print Assumptions C09_converges_except_findings.
+
+(* the hypotheses are satisfiable by a run with faults: two landed unknown writes (update, delete), one that did not
+   land, a repair write that itself lands with unknown outcome and is repaired again *)
+Example C09_converges_hypotheses_inhabited :
+  labels_ok (init_state 10) repaired_witness /\
+  let s := run (init_state 10) repaired_witness in
+  quiescentb s = true /\ s_committed s = 18 /\ length (s_events s) = 4%nat /\
+  snap s 12 0 = Some (v1, 11) /\ snap s 18 0 = Some (v2, 18) /\ snap s 12 1 = Some (v1, 12) /\ snap s 18 1 = None.
+Proof. exact repaired_witness_ok. Qed.
+
+(* label lists whose repair commits are all effective and whose values are non-empty satisfy labels_ok in every state *)
+Theorem C09_converges_plain : forall r0 ls,
+  Forall label_plain ls -> let s := run (init_state r0) ls in
+  quiescentb s = true -> forall R0 k, converged_at s R0 k.
+Proof. exact converges_plain. Qed.
+Print Assumptions C09_converges_plain.
+
+(* the correspondence oracle on observations the model itself produces (not a soundness proof, see props/C09.json "gaps") *)
+Example C09_oracle_on_model :
+  (c09_check (self_case sc_clean) = true /\ c09_oracle (self_case sc_clean) = None) /\
+  (c09_check (self_case sc_F1) = true /\ c09_oracle (self_case sc_F1) = Some 1) /\
+  (c09_check (self_case sc_F2) = true /\ c09_oracle (self_case sc_F2) = Some 2).
+Proof. exact oracle_on_model. Qed.
